@@ -47,6 +47,8 @@ def run(repo, rep):
     # 1. epoch propagation
     c11.add_rules(repo, rep, ev)
     rep.floor('R-WIRE', 17, 'seven parameters, seven rates, labels and epoch of __add__')
+    # 1b. uncertainties: sigma_p(t) = sqrt(sigma_p^2 + (sigma_rate * dt)^2), rate sigmas passed on, in a new object
+    sd_rules(repo, rep)
     # 2. conform14
     f = repo.func('geodepy.transform', 'conform14')
     rep.analysed(f)
@@ -128,6 +130,36 @@ def run(repo, rep):
                      expected='a new object for the propagated uncertainties', actual=s.text)
     else:
         rep.holds('R-PURE', key, where(add, add.node), '__add__ only writes to objects it creates')
+
+
+def sd_rules(repo, rep):
+    tcls = repo.cls('geodepy.constants', 'Transformation')
+    scls = repo.cls('geodepy.constants', 'TransformationSD')
+    add = tcls.methods['__add__']
+    ev = Evaluator(repo)
+    T = ev.symbolic_object(tcls, 'T')
+    SD = ev.symbolic_object(scls, 'SD', origin='param:SD')
+    T.fields['tf_sd'] = SD
+    r = ev.call_function(add, {add.params[0].name: T, add.params[1].name: Rat.sym('epoch')})
+    from ..symval import IteV
+    guard = 0
+    while isinstance(r, IteV) and guard < 4:
+        guard += 1
+        r = r.a if isinstance(r.a, Obj) else r.b
+    w = where(add, add.node)
+    base = 'R-FORMULA::geodepy/constants.py::Transformation.__add__::tf_sd::'
+    if not isinstance(r, Obj) or not isinstance(r.fields.get('tf_sd'), Obj):
+        rep.undecided('R-FORMULA', base + 'shape', w, 'the re-referenced set does not carry a TransformationSD object')
+        return
+    new = r.fields['tf_sd']
+    if new is SD:
+        rep.violated('R-FORMULA', base + 'fresh', w, 'the re-referenced set shares (and overwrites) the uncertainty object of its source')
+    dt = (Rat.sym('epoch') - T.fields['ref_epoch']) / C(F(36525, 100))
+    for p in c11.PARAMS:
+        want = alg.power(SD.fields['sd_' + p].ipow(2) + (SD.fields['sd_d_' + p] * dt).ipow(2), C(F(1, 2)))
+        check_equal(rep, 'R-FORMULA', base + 'sd_' + p, w, new.fields.get('sd_' + p), want,
+                    'sigma of %s at the new epoch = sqrt(sd_%s^2 + (sd_d_%s * dt)^2)' % (p, p, p))
+        check_equal(rep, 'R-FORMULA', base + 'sd_d_' + p, w, new.fields.get('sd_d_' + p), SD.fields['sd_d_' + p], 'rate sigma sd_d_%s passed on unchanged' % p)
 
 
 def controls(repo):
